@@ -423,7 +423,7 @@ def split_executions(trace, want_dir="flow", limit=None, seed=0, max_insts=6):
             continue        # the interleaving search grows quickly with the number of independent jobs
         lists, order = {}, []
         for e in x["evs"]:
-            if e["ev"] in ("over", "capacity"):
+            if e["ev"] in ("over", "capacity", "info", "notprompt"):
                 continue
             g = "env" if e["ev"] in ("cancel_begin", "cancel") else e["g"]
             if g not in lists:
